@@ -209,6 +209,45 @@ for ename, enabled in enabled_values().items():
         REPORT["items"]["invariant/{}/{}".format(base_name, ename)] = {
             "same": dec is Inv and members_same, "vars_unchanged": no_new, "ok": run_call(ok_call), "bad": run_call(bad_call)}
 
+    # ---- invariant (possibly disabled) on a plain sub-class of a class which carries an explicitly enabled invariant: the members
+    # which the sub-class defines stay what they are
+    @icontract.invariant(lambda self: self.v > -100, enabled=True)
+    class InvBase:
+        def __init__(self, v):
+            self.v = v
+
+        def get(self):
+            probe("body", None)
+            return self.v
+
+    class InvSub(InvBase):
+        def get(self):
+            probe("body", None)
+            return self.v
+
+        def added(self, v):
+            probe("body", None)
+            self.v = v
+
+        @property
+        def prop(self):
+            return self.v
+
+    orig_dict = dict(vars(InvSub))
+    dec = icontract.invariant(inv_pos, **kw(enabled))(InvSub)
+
+    def ok_sub(cls=InvSub):
+        return cls(1).get()
+
+    def bad_sub(cls=InvSub):
+        obj = cls(1)
+        obj.added(-1)
+        return "returned"
+
+    REPORT["items"]["invariant/plainsub/" + ename] = {
+        "same": dec is InvSub and all(vars(InvSub).get(k) is v for k, v in orig_dict.items()),
+        "vars_unchanged": set(vars(InvSub)) == set(orig_dict), "ok": run_call(ok_sub), "bad": run_call(bad_sub)}
+
     # ---- invariant with check_on=SETATTR
     class InvS:
         def __init__(self):
